@@ -390,6 +390,19 @@ theorem applyOp_inv {cont : Bool} {sub : Sub} {w : World} (h : WInv sub w) (hgoo
       · exact (refs_pos_iff w i).mpr (.inl hb)
       · exact (refs_pos_iff w i).mpr (.inr ⟨s, hs, hsi⟩)
       · simp only at hsi; subst hsi; exact lookupBind_refs hl
+  | putIn slot ctx name owner =>
+    simp only [applyOp]
+    cases hl : lookupBind w ctx name with
+    | none => exact ⟨h, hgood⟩
+    | some j =>
+      refine ⟨WInv_shrink h rfl rfl rfl ?_, hgood⟩
+      intro i hi
+      rw [refs_pos_iff] at hi
+      simp only [List.mem_append, List.mem_filter, List.mem_singleton] at hi
+      rcases hi with hb | ⟨s, (⟨hs, _⟩ | rfl), hsi⟩
+      · exact (refs_pos_iff w i).mpr (.inl hb)
+      · exact (refs_pos_iff w i).mpr (.inr ⟨s, hs, hsi⟩)
+      · simp only at hsi; subst hsi; exact lookupBind_refs hl
   | drop slot =>
     refine ⟨WInv_shrink h rfl rfl rfl ?_, hgood⟩
     intro i hi
